@@ -15,6 +15,8 @@ import sys
 import tempfile
 
 VERIF = os.path.dirname(os.path.dirname(os.path.abspath(__file__)))
+# ./check is run from here: a snapshot of /verif (git archive) keeps a long sweep independent of edits made meanwhile
+CHECK_DIR = os.environ.get("VERIF_SNAPSHOT", VERIF)
 PROPS = [json.loads(l)["id"] for l in open(os.path.join(VERIF, "properties.jsonl"))]
 
 
@@ -48,7 +50,7 @@ def run_one(sid, only_props=None, result_name="result.json"):
         env2 = dict(os.environ, PYVC_REPO=tmp, PYVC_OUT=outdir, PYVC_JOBS="6")
         det = {}
         for p in (only_props or PROPS):
-            rc, out = sh(f"./check {p}", cwd=VERIF, env=env2, timeout=1800)
+            rc, out = sh(f"./check {p}", cwd=CHECK_DIR, env=env2, timeout=1800)
             lines = [l for l in out.splitlines() if l.startswith(("VIOLATION", "UNDECIDED", "CHECKER-ERROR", "KNOWN"))]
             det[p] = {"exit": rc, "lines": lines[:6]}
             if rc == 1:
